@@ -122,3 +122,42 @@ func H_C11_padwide() {
 		vrtAssert(refEqual(got, want), "value differs from the code-point based specification")
 	}
 }
+
+// H_C11_leads: a code point from every class of UTF-8 lead byte (C2..DF, E0,
+// E1..EC, ED, EE..EF, F0, F1..F3, F4 - tables of byte widths go wrong at the
+// class boundaries) followed by an ASCII character, through every string
+// operation of the property.
+var c11LeadExprs = append([]string{"a[1:]", "a[:2]", "a[::2]", "a[::-1]", "a[1:2]", "a[:]", "a[-1:]", "a[:-1]", "length(a[1:])", "reverse(a)[1:]"}, c11Exprs...)
+
+func H_C11_leads() {
+	k := vrtChoose("expr", len(c11LeadExprs))
+	expr := c11LeadExprs[k]
+	vrtNote("template:" + expr)
+	vrtSpec(2, 1, 2, "x", smASCII, nfInt, 0)
+	vrtNumRange(0, 3)
+	doc := map[string]any{
+		"a": vrtStrN("p", 1, smUTF8|(0x1ff<<2)) + vrtStr("q", 1, smASCII) + vrtStrN("r", 1, smUTF8|(0x1fe<<2)),
+		"b": vrtStrN("b", 1, smASCII),
+		"c": vrtJNum("c", nfInt),
+		"d": vrtJNum("d", nfInt),
+	}
+	got, err := Search(expr, doc)
+	if err == nil {
+		vrtAssert(c11ValidResult(got), "result contains invalid UTF-8")
+	}
+	if expr == "a < b" {
+		return
+	}
+	want, ec := refSearch(expr, doc)
+	if ec == ecUnspecified {
+		return
+	}
+	if ec != ecNone {
+		vrtAssert(err != nil && ecOfError(err) == ec, "error category differs from the specification: want "+ecNames[ec])
+		return
+	}
+	vrtAssert(err == nil, "unexpected error")
+	if err == nil {
+		vrtAssert(refEqual(got, want), "value differs from the code-point based specification")
+	}
+}
